@@ -80,6 +80,7 @@ type Result struct {
 	MapSites  map[string]int               `json:"map_sites,omitempty"` // site -> max number of keys seen
 	Taps      map[string][]json.RawMessage `json:"taps,omitempty"`
 	Procs     []ProcRecord                 `json:"procs,omitempty"`
+	Sections  []string                     `json:"sections,omitempty"`
 	Driver    json.RawMessage              `json:"driver,omitempty"`
 }
 
@@ -638,6 +639,27 @@ func (w *World) taskBody(t *task, f func()) {
 		return
 	}
 	f()
+}
+
+// Boundary separates sections of a session world (several invocations in one
+// process): what was observed so far (file-system log, child processes, taps,
+// counters) is dropped, so that the result describes the last section only;
+// the event log and its hash keep running.
+func Boundary(name string) {
+	w := W
+	if w == nil {
+		return
+	}
+	w.logEvent("boundary", name)
+	w.Res.Sections = append(w.Res.Sections, fmt.Sprintf("%s@%d fs=%d procs=%d", name, w.evSeq, len(w.fs.log), len(w.procs)))
+	w.fs.log = nil
+	w.procs = nil
+	w.Res.Taps = map[string][]json.RawMessage{}
+	for k := range w.Res.Counters {
+		if strings.HasPrefix(k, "fault.") || strings.HasPrefix(k, "proc.") || strings.HasPrefix(k, "ctx.") {
+			delete(w.Res.Counters, k)
+		}
+	}
 }
 
 // Yield is a plain scheduling point (inserted before sync.Map / atomic calls).
